@@ -1,7 +1,7 @@
 import Pamqp.Model.Base
 /-!
 # Pamqp.Model.Frame — `pamqp/frame.py`, `header.py`, `body.py`, `heartbeat.py` (repaired tree,
-D1 D3 D4). The catalogue (`INDEX_MAPPING`, `Basic.Properties`) is a parameter `Cat`, instantiated
+D1 D3 D4 D12). The catalogue (`INDEX_MAPPING`, `Basic.Properties`) is a parameter `Cat`, instantiated
 with the regenerated `Pamqp.Generated.cat` by the driver and by the property theorems.
 -/
 namespace Pamqp
@@ -142,7 +142,7 @@ def unmarshal (cat : Cat) (dataIn : Bytes) : R (Nat × Nat × AnyFrame) :=
         if dataIn.length < 8 then .error .unmarshaling       -- repaired (D1)
         else if (dataIn.drop 7).head? ≠ some frameEnd then .error .unmarshaling
         else .ok (8, channel, .heartbeat)
-      else if frameSize = 0 then .error .unmarshaling
+      else if frameSize = 0 ∧ frameType ≠ 3 then .error .unmarshaling   -- repaired (D12): an empty body frame is a frame
       else
         let byteCount := 7 + frameSize + 1
         if byteCount > dataIn.length then .error .unmarshaling
